@@ -17,7 +17,7 @@ ID = 'C17'
 
 MANIFEST = {
     'engine': 'symx',
-    'text': 'Bounded symbolic model checking of the real rank_features_3MR source: every relevance, redundancy and relation score is a free real variable, per ordered pair a symbolic flag says whether the entry is missing from its dictionary; the strategy and (alpha, beta) are fixed per job over a grid. On every path z3 shows: each feature listed once, ranks 1..n in order, first feature has maximal relevance, and at each later position the chosen feature\'s importance (written independently over the z3 variables, median/mean/sum, missing = 0) is >= every remaining feature\'s.',
+    'text': 'Bounded symbolic model checking of the real rank_features_3MR source: every relevance, redundancy and relation score is a free real variable, per ordered pair a symbolic flag says whether the entry is missing from its dictionary; the strategy and (alpha, beta) are fixed per job over a grid. On every path z3 shows: each feature listed once, ranks 1..n in order, first feature has maximal relevance, and at each later position the chosen feature\'s importance (written independently over the z3 variables, median/mean/sum, missing = 0) is >= every remaining feature\'s. Condition task drives the real ranking task in 3MR mode with interaction order 2 and a symmetric token scorer and checks 3mr_ranks.tsv against the dictionaries rebuilt from pairwise_ranks.tsv (normalised relevance, redundancy, relation), i.e. the construction of the three dictionaries in task_ranking.py.',
     'note': 'Exact reals (near-tie float rounding outside); n<=4 features quick, n<=5 thorough; alpha,beta in {0,1/2,1,2}; np.median/np.mean replaced by a sorting stand-in that forks on comparisons; the result frame is built by the real pandas. The construction of the three dictionaries in task_ranking.py is exercised concretely in the C08 task-tail condition, not here.',
     'technique': 'symbolic execution of the real Python source with z3 over linear real arithmetic (scores as free reals)',
 }
